@@ -29,6 +29,8 @@ META = {
 VALUES = [0.1, 0.35, 0.8, 0.3500014, 0.3141592653589793, 1.122462048309373, 1e-9, 5e-9, 0.0]
 NSEQ_VALUES = 4                 # the sequences without deduplication use the first 3 (quick) / 4 (thorough) values; the BFS all of them (first 5 for four types in quick)
 ALLTYPES = ['A', 'B', 'C', 'D']
+# further label sets (explored by the BFS only): integers that are not their own positions, names contained in one another
+LABELSETS = {'ints': [1, 0, 3, 2], 'nested-names': ['C', 'CH2', 'PS', 'PS-b-P2VP']}
 
 
 def pp():
@@ -69,7 +71,7 @@ def step(obj, model, types, op):
     model = dict(model)
     key, v = op
     obj[key] = v
-    for t in ([key] if isinstance(key, str) else key):
+    for t in (key if isinstance(key, list) else [key]):
         model[t] = v
     return model
 
@@ -189,7 +191,7 @@ def bfs(rec, kind, types, extra, max_states=20000, nvalues=None):
                 if sum(v is not None for v in m2.values()) >= 2:
                     rec.outcome(core.digest(repr((kind, types, canon(m2, types)))))
                 frontier.append((h2, o2, m2))
-    rec.note('bfs_%s_%d' % (kind, len(types)), {'states': len(seen), 'max_depth': maxd, 'fixpoint': not capped,
+    rec.note('bfs_%s_%d_%s' % (kind, len(types), types[0]), {'states': len(seen), 'max_depth': maxd, 'fixpoint': not capped,
                                                  'model_states': len(set(k[0] for k in seen))})
     return not capped
 
@@ -334,6 +336,9 @@ def run(rec, tier, seed):
                 items.append(('seq', kind, types, op, sdepth[n], extra, nsv))
         for n, d in ((2, 4 if tier == 'quick' else 6), (3, 3 if tier == 'quick' else 4)):
             items.append(('two', kind, ALLTYPES[:n], d))
+        for lname, labels in LABELSETS.items():
+            for n in ((2, 3) if tier == 'quick' else (2, 3, 4)):
+                items.append(('bfs', kind, labels[:n], extra, 5))
     core.pmap(_worker, items, rec, chunksize=1)
     fix = all(v.get('fixpoint', True) for k, v in rec.notes.items() if k.startswith('bfs_'))
     rec.note('fixpoint', fix)
